@@ -1111,6 +1111,12 @@ pub fn run(ctx: &Ctx, prop: &str) -> Report {
                         run_and_record(&h, prop, &mut rep, false);
                         rep.count("midi.full_buffer_histories", 1);
                     }
+                    if s == 1 && j == 0 && !small {
+                        // counts around 2^16: 70 000 melody notes over a held key
+                        let h = gen_drone_melody(&mut r, 70_000, prop == "C05");
+                        run_and_record(&h, prop, &mut rep, false);
+                        rep.count("midi.very_long_histories", 1);
+                    }
                     if j % 16 == 5 {
                         // a held key under a long melody; for C05 the melody runs without a single edge poll
                         let len = *r.pick(&[40usize, 254, 255, 256, 257, 300, 511, 512, 513, 700]);
@@ -1125,6 +1131,7 @@ pub fn run(ctx: &Ctx, prop: &str) -> Report {
             if !small {
                 rep.floor("midi.drone_melody_histories", 50);
                 rep.floor("midi.full_buffer_histories", 100);
+                rep.floor("midi.very_long_histories", 1);
                 for e in ["NoteOnRaises", "NoteOnLegato", "NoteOffLast", "NoteOffSome", "NoteOffStrayGateLow", "NoteOffStrayGateHigh", "AllOffGateHigh", "AllOffGateLow"] {
                     rep.floor(&format!("midi.effect.{}", e), 200);
                 }
